@@ -561,8 +561,13 @@ class GridMesh:
                     # extract BC for subgrid
                     bc = bc.to_subgrid(self.current_grid)
                 else:
-                    # set an MPI boundary condition
-                    bc = _MPIBC(self, axis, upper, rank=bc.rank)
+                    # set an MPI boundary condition; the sign only flips across the
+                    # seam of an anti-periodic axis, i.e., at an outer face of the
+                    # base grid, but not between neighboring subgrids in the interior
+                    idx = self._id2idx(self.current_node)[axis]
+                    at_seam = idx == (self.shape[axis] - 1 if upper else 0)
+                    flip_sign = at_seam and getattr(bc, "flip_sign", False)
+                    bc = _MPIBC(self, axis, upper, rank=bc.rank, flip_sign=flip_sign)
                 bcs_axis.append(bc)
             bcs.append(BoundaryPair(*bcs_axis))
 
